@@ -4,6 +4,7 @@
 -/
 import PyndlProofs.Continue
 import PyndlProofs.Dict
+import PyndlProofs.NdlContinue
 
 namespace Pyndl.C03
 open Pyndl List
@@ -51,6 +52,40 @@ theorem dict_from_data_array (w : LW R) (o c : String) : wdAbs (dictFromLW w) o 
 theorem abs_extend (w : LW R) (cuesNew outsNew : List String) (o c : String) :
     (extendLW w cuesNew outsNew).get o c = w.get o c :=
   extendLW_get w cuesNew outsNew o c
+
+/-- **`ndl.ndl` continued from given weights = the specification continued from
+    the weight function they denote** — whole model (count, merged id maps with
+    new labels appended, zero extension, chunks, kernels per part, labels), every
+    method, chunk sizes, policy-accepted events, within the 32-bit limits. -/
+theorem ndl_continue (cfg : NdlCfg) (hper : 2 ≤ cfg.perFile) (hjob : 1 ≤ cfg.perJob) (alpha β₁ β₂ lam : R)
+    (w : LW R) (es es' : List (Event String String))
+    (hp : applyPolicyAll cfg.policy es = some es') (hfit : Fits32With w es) :
+    ∃ r, ndlModel Generated.pyMagic Generated.pyVersion cfg alpha β₁ β₂ lam (some w) es = .ok (r, es.length) ∧
+      ∀ o c, r.get o c = rwLearn (fun _ => alpha) β₁ β₂ lam (fun o c => w.get o c) es' o c :=
+  ndlModel_continue_eq_spec _ _ (by decide) (by decide) cfg hper hjob alpha β₁ β₂ lam w es es' hp hfit
+
+/-- **two chained `ndl.ndl` calls = one call over the concatenation** (possibly
+    different methods, thread counts and chunk sizes in the two calls, later
+    part with new cues/outcomes) -/
+theorem ndl_chain_two (cfg₁ cfg₂ : NdlCfg) (h1 : 2 ≤ cfg₁.perFile) (j1 : 1 ≤ cfg₁.perJob)
+    (h2 : 2 ≤ cfg₂.perFile) (j2 : 1 ≤ cfg₂.perJob) (alpha β₁ β₂ lam : R)
+    (xs xs' ys ys' : List (Event String String))
+    (hx : applyPolicyAll cfg₁.policy xs = some xs') (hy : applyPolicyAll cfg₂.policy ys = some ys')
+    (fx : Fits32 xs)
+    (fy : ∀ w : LW R, Fits32With w ys) :
+    ∃ w₁ w₂, ndlModel Generated.pyMagic Generated.pyVersion cfg₁ alpha β₁ β₂ lam none xs = .ok (w₁, xs.length) ∧
+      ndlModel Generated.pyMagic Generated.pyVersion cfg₂ alpha β₁ β₂ lam (some w₁) ys = .ok (w₂, ys.length) ∧
+      ∀ o c, w₂.get o c = rwLearn (fun _ => alpha) β₁ β₂ lam (fun _ _ => (0 : R)) (xs' ++ ys') o c := by
+  obtain ⟨w₁, e1, a1⟩ := ndlModel_eq_spec Generated.pyMagic Generated.pyVersion (by decide) (by decide)
+    cfg₁ h1 j1 alpha β₁ β₂ lam xs xs' hx fx
+  obtain ⟨w₂, e2, a2⟩ := ndlModel_continue_eq_spec Generated.pyMagic Generated.pyVersion (by decide) (by decide)
+    cfg₂ h2 j2 alpha β₁ β₂ lam w₁ ys ys' hy (fy w₁)
+  refine ⟨w₁, w₂, e1, e2, ?_⟩
+  intro o c
+  rw [a2, rwLearn_append]
+  congr 1
+  funext o c
+  exact a1 o c
 
 /-- **inputs are not modified** — in the model every learner is a pure function
     of its `weights` argument, so the statement is the trivial one below. The
